@@ -13,11 +13,12 @@ from harness.c11_config_view import make_world, bootstrap
 from harness.c10_config_save import INITIAL
 
 prelude.install()
-from txtorcon.onion import EphemeralOnionService  # noqa: E402
+from txtorcon.onion import EphemeralOnionService, FilesystemOnionService  # noqa: E402
 
 PROPERTY = 'C15'
 ASSUMPTIONS = [
-    'TorConfig bootstrapped natively against SimTor; the service is created through EphemeralOnionService.create with a string port mapping',
+    'TorConfig bootstrapped natively against SimTor; the service is created through EphemeralOnionService.create (ADD_ONION) or '
+    'FilesystemOnionService.create (SETCONF; a scratch directory holding a hostname file is created and removed by the check)',
     'SimTor acknowledges SETEVENTS at once and answers ADD_ONION at a symbolic position in the event sequence',
     'three-valued reference (vlib-side): only events of the service itself that arrive after the ADD_ONION reply (when its address is known) '
     'create obligations to complete / fail; safety (no completion without an own UPLOADED, no failure without an own FAILED, at most one outcome, '
@@ -25,7 +26,7 @@ ASSUMPTIONS = [
 ]
 BOUNDS = {'quick': {'events': 3, 'directories': 2, 'services': 'own + one foreign sharing the directories', 'modes': 'first-upload and await-all'},
           'thorough': {'events': 4, 'directories': 3}}
-OUTSIDE = ['more than 4 events / 3 directories', 'filesystem services (same helper, different caller)']
+OUTSIDE = ['more than 4 events / 3 directories', 'authenticated services']
 
 OWN = 'ownserviceidaaaaaaaaaaaaaaaaaaaaaaaaaaaaaaaaaaaaaaaaaaaa'
 FOREIGN = 'foreignserviceidbbbbbbbbbbbbbbbbbbbbbbbbbbbbbbbbbbbbbbbb'
@@ -48,9 +49,31 @@ def _onion_handler(ln):
     return ['250 OK']
 
 
-def _wait(events, reply_at, await_all, ndirs):
-    """events: list of (kind, own, dir); the ADD_ONION reply is delivered before event index reply_at"""
-    p, t, tor = make_world(dict(INITIAL), True, {})
+def _wait(events, reply_at, await_all, ndirs, fs=False):
+    """events: list of (kind, own, dir); the reply to the creating command (ADD_ONION, or SETCONF for a filesystem service)
+    is delivered before event index reply_at"""
+    import shutil
+    import tempfile
+    hsdir = None
+    if fs:
+        hsdir = tempfile.mkdtemp(prefix='verif-c15-')
+        with open(hsdir + '/hostname', 'w') as f:
+            f.write(OWN + '.onion\n')
+    try:
+        return _wait_inner(events, reply_at, await_all, ndirs, fs, hsdir)
+    finally:
+        if hsdir:
+            shutil.rmtree(hsdir, ignore_errors=True)
+
+
+def _wait_inner(events, reply_at, await_all, ndirs, fs, hsdir):
+    values = dict(INITIAL)
+    p, t, tor = make_world(values, True, {})
+    if fs:
+        for nm, typ in (('HiddenServiceOptions', 'Virtual'), ('HiddenServiceDir', 'Dependent'), ('HiddenServicePort', 'Dependent'),
+                        ('HiddenServiceVersion', 'Dependent')):
+            tor.options[nm] = {'type': typ, 'values': None}
+        p.version = '0.4.8.9'
     p._set_valid_events('CONF_CHANGED HS_DESC CIRC STREAM')
     cfg, out = bootstrap(p, tor)
     if out.ok != 1:
@@ -58,25 +81,30 @@ def _wait(events, reply_at, await_all, ndirs):
     tor.onion_handler = _onion_handler
     progress = []
     held = []
+    creating = 'SETCONF HiddenServiceDir' if fs else 'ADD_ONION'
 
     orig_answer = tor.answer
 
     def answer(ln):
-        if ln.startswith('ADD_ONION') and not held:
+        if ln.startswith(creating) and not held:
             held.append(ln)          # hold the reply back
             return
         orig_answer(ln)
     tor.answer = answer
 
     try:
-        d = EphemeralOnionService.create(object(), cfg, ['80 127.0.0.1:8080'], version=3, progress=lambda *a: progress.append(a),
-                                         await_all_uploads=True if await_all else None)
+        if fs:
+            d = FilesystemOnionService.create(object(), cfg, hsdir, ['80 127.0.0.1:8080'], version=3, progress=lambda *a: progress.append(a),
+                                              await_all_uploads=True if await_all else None)
+        else:
+            d = EphemeralOnionService.create(object(), cfg, ['80 127.0.0.1:8080'], version=3, progress=lambda *a: progress.append(a),
+                                             await_all_uploads=True if await_all else None)
         o = fakes.Outcome(d)
         tor.pump()
         if len(held) != 1:
-            return R('no-ADD_ONION-written', '%r', tor.lines)
+            return R('creating-command-not-written', '%r', tor.lines)
         if 'HS_DESC' not in p.events:
-            return R('listener-not-installed-before-ADD_ONION')
+            return R('listener-not-installed-before-the-creating-command')
         replied = False
         own_uploaded_ever = False
         own_failed_ever = False
@@ -87,6 +115,10 @@ def _wait(events, reply_at, await_all, ndirs):
                 replied = True
                 orig_answer(held[0])
                 tor.pump()
+                if must == 'complete' and o.ok != 1:
+                    return R('not-completed-although-own-upload-confirmed', 'after the late reply: events %r reply_at %d: ok=%d err=%d', events[:i], reply_at, o.ok, o.err)
+                if must == 'fail' and o.err != 1:
+                    return R('not-failed-although-every-own-upload-failed', 'after the late reply: events %r reply_at %d', events[:i], reply_at)
             if i == len(events):
                 break
             kind, own, dr = events[i]
@@ -94,9 +126,10 @@ def _wait(events, reply_at, await_all, ndirs):
                 own_uploaded_ever = True
             if own and kind == 2:
                 own_failed_ever = True
-            if known('C15-foreign-uploaded') and (not own) and kind == 1 and replied and dr in att:
+            counts = replied or fs
+            if known('C15-foreign-uploaded') and (not own) and kind == 1 and counts and dr in att:
                 assume(False)        # region of the listed known finding (re-checked by its witness)
-            if own and replied and must is None:
+            if own and counts and must is None:
                 # obligations arise at the deciding events only; a fresh UPLOAD re-opens that directory
                 if kind == 0:
                     att.add(dr)
@@ -123,9 +156,9 @@ def _wait(events, reply_at, await_all, ndirs):
                 return R('failed-without-any-failed-upload-of-this-service', 'events so far %r: %r', events[:i + 1], o.exc())
             if o.ok and not replied:
                 return R('completed-before-the-service-exists')
-            if must == 'complete' and o.ok != 1:
+            if must == 'complete' and replied and o.ok != 1:
                 return R('not-completed-although-own-upload-confirmed', 'await_all=%s events %r reply_at %d: ok=%d err=%d', await_all, events[:i + 1], reply_at, o.ok, o.err)
-            if must == 'fail' and o.err != 1:
+            if must == 'fail' and (replied or not fs) and o.err != 1:
                 return R('not-failed-although-every-own-upload-failed', 'events %r reply_at %d', events[:i + 1], reply_at)
             if o.fired:
                 if 'HS_DESC' in p.events:
@@ -149,18 +182,20 @@ def _decode(e, ndirs):
 
 
 @cond(quick=dict(parts=[{'e1': a, 'await_all': m} for a in range(12) for m in (False, True)], budget=150))
-def c15_orderings3(e1: int, e2: int, e3: int, reply_at: int, await_all: bool) -> str:
+def c15_orderings3(e1: int, e2: int, e3: int, reply_at: int, await_all: bool, fs: bool) -> str:
     """3 HS_DESC events over 2 directories x {own, foreign} x {UPLOAD, UPLOADED, FAILED}; ADD_ONION reply before event reply_at (3 = after all)"""
     evs = [_decode(e1, 2)] + [_decode(api.pick(e, 0, 11), 2) for e in (e2, e3)]
     reply_at = api.pick(reply_at, 0, 3)
+    fs = True if fs else False
     with api.no_tracing():      # every choice is concrete by now
-        return _wait(evs, reply_at, await_all, 2)
+        return _wait(evs, reply_at, await_all, 2, fs)
 
 
 @cond(thorough=dict(parts=[{'e1': a, 'e2': b, 'await_all': m} for a in range(18) for b in range(18) for m in (False, True)], budget=300))
-def c15_orderings4(e1: int, e2: int, e3: int, e4: int, reply_at: int, await_all: bool) -> str:
+def c15_orderings4(e1: int, e2: int, e3: int, e4: int, reply_at: int, await_all: bool, fs: bool) -> str:
     """4 events over 3 directories"""
     evs = [_decode(e1, 3), _decode(e2, 3)] + [_decode(api.pick(e, 0, 17), 3) for e in (e3, e4)]
     reply_at = api.pick(reply_at, 0, 4)
+    fs = True if fs else False
     with api.no_tracing():
-        return _wait(evs, reply_at, await_all, 3)
+        return _wait(evs, reply_at, await_all, 3, fs)
